@@ -309,7 +309,7 @@ func (c *c19ctx) injectXML() {
 
 func (c *c19ctx) injectB1(n int) {
 	c.group = "B-inject"
-	kinds := []string{"syntax", "missing", "dir", "type", "encode", "xml", "type"}
+	kinds := []string{"syntax", "missing", "dir", "type", "encode", "xml", "type", "syntax"}
 	kind := kinds[n%len(kinds)]
 	if kind == "xml" {
 		c.injectXML()
@@ -369,7 +369,7 @@ func (c *c19ctx) injectB1(n int) {
 	// the position
 	j := c.r.IntN(nf)
 	k := c.r.IntN(len(files[j].docs))
-	jsonStream := kind == "syntax" && c.r.IntN(3) == 0
+	jsonStream := kind == "syntax" && c.r.IntN(2) == 0
 	if jsonStream {
 		// JSON streams (format taken from the extension of the first file): the malformed spot sits between documents
 		for fi, f := range files {
@@ -545,6 +545,24 @@ var c19Shapes = []struct {
 	{"seqofnestedmaps", func(c *c19ctx) *ref.V {
 		return c.flatSeq(1, func() *ref.V { return c.flatMap(1, func() *ref.V { return c.value(1) }) })
 	}},
+	{"nestedrownotlast", func(c *c19ctx) *ref.V {
+		// rows under one header; a row that is NOT the last one holds a nested value, the last row is flat
+		keys := []string{"a", "b", "c"}[:1+c.r.IntN(3)]
+		n := 2 + c.r.IntN(3)
+		bad := c.r.IntN(n - 1)
+		s := &ref.V{K: ref.Seq, A: []*ref.V{}}
+		for i := 0; i < n; i++ {
+			row := &ref.V{K: ref.Map, M: []ref.KV{}}
+			for _, k := range keys {
+				row.M = append(row.M, ref.KV{K: k, V: c.scalar()})
+			}
+			if i == bad {
+				row.M[c.r.IntN(len(row.M))].V = []*ref.V{c.flatSeq(1, c.scalar), c.flatMap(1, c.scalar)}[c.r.IntN(2)]
+			}
+			s.A = append(s.A, row)
+		}
+		return s
+	}},
 	{"mapofseqs", func(c *c19ctx) *ref.V {
 		return c.flatMap(1, func() *ref.V { return c.flatSeq(0, c.scalar) })
 	}},
@@ -576,11 +594,18 @@ var c19Shapes = []struct {
 
 func (c *c19ctx) sweepB2(n int) {
 	c.group = "B-sweep"
-	if n%6 == 5 {
+	if n%12 == 5 {
 		c.complexKeyCSV()
 		return
 	}
 	sh := c19Shapes[n%len(c19Shapes)]
+	if n%12 == 11 {
+		for _, x := range c19Shapes {
+			if x.name == "nestedrownotlast" {
+				sh = x
+			}
+		}
+	}
 	v := sh.mk(c)
 	nul := n%3 == 2
 	c.tag("sweep", "shape:"+sh.name)
